@@ -1199,6 +1199,25 @@ def _mk_copy(place):
     return _FakeOp(place)
 
 
+def indirect_target(body, t):
+    """for a call through a function pointer whose value is a known function item in this (possibly inlined) body: the path of that function, else None"""
+    ind = t.callee.get('indirect') if t.kind in ('call', 'tailcall') else None
+    if not ind:
+        return None
+    pj = ind.get('m') or ind.get('c') or ind
+    try:
+        pl = mkplace(pj)
+    except Exception:
+        return None
+    e = expr_of(body, _FakeOp(pl))
+    for _ in range(4):
+        if e[0] == 'cast':
+            e = e[1]
+    if e[0] == 'const' and isinstance(e[2], dict) and e[2].get('fn'):
+        return e[2].get('fn_args') or e[2]['fn']
+    return None
+
+
 def comparison_polarity(body, e, depth=0):
     """If boolean expr e is (up to negation / ==1 tests / bool::from) the result of a comparison *call*
     (ct_eq, PartialEq::eq/ne, starts_with, contains, is_null, is_empty, ...), return (bb, Term, polarity) with polarity True
